@@ -680,6 +680,9 @@ func (ls *LState) where(level int, skipg bool) string {
 		return ""
 	}
 	cf := dbg.frame
+	if cf == tailCallFrame && !skipg {
+		return "" // luaL_where: no position when there is no current line
+	}
 	proto := cf.Fn.Proto
 	sourcename := "[G]"
 	if proto != nil {
@@ -1555,6 +1558,11 @@ func (ls *LState) Error(lv LValue, level int) {
 
 func (ls *LState) GetInfo(what string, dbg *Debug, fn LValue) (LValue, error) {
 	if !strings.HasPrefix(what, ">") {
+		if dbg.frame == tailCallFrame {
+			dbg.Name, dbg.What, dbg.Source = "", "tail", "=(tail call)"
+			dbg.CurrentLine, dbg.LineDefined, dbg.LastLineDefined, dbg.NUpvalues = -1, -1, -1, 0
+			return LNil, nil
+		}
 		fn = dbg.frame.Fn
 	} else {
 		what = what[1:]
@@ -1622,13 +1630,21 @@ func (ls *LState) GetStack(level int) (*Debug, bool) {
 	if level == 0 && frame != nil {
 		return &Debug{frame: frame}, true
 	} else if level < 0 && ls.stack.Sp() > 0 {
-		return &Debug{frame: ls.stack.At(0)}, true
+		// the level is one of the frames lost to tail calls (lua_getstack: the "(tail call)" entry)
+		return &Debug{frame: tailCallFrame}, true
 	}
 	return &Debug{}, false
 }
 
+// tailCallFrame stands for a frame that a tail call replaced: it is not a Lua function, has
+// no current line, no locals and no function value (ldebug.c info_tailcall).
+var tailCallFrame = &callFrame{Fn: &LFunction{IsG: true}}
+
 func (ls *LState) GetLocal(dbg *Debug, no int) (string, LValue) {
 	frame := dbg.frame
+	if frame == tailCallFrame {
+		return "", LNil
+	}
 	if name := ls.findLocal(frame, no); len(name) > 0 {
 		return name, ls.reg.Get(frame.LocalBase + no - 1)
 	}
@@ -1637,6 +1653,9 @@ func (ls *LState) GetLocal(dbg *Debug, no int) (string, LValue) {
 
 func (ls *LState) SetLocal(dbg *Debug, no int, lv LValue) string {
 	frame := dbg.frame
+	if frame == tailCallFrame {
+		return ""
+	}
 	if name := ls.findLocal(frame, no); len(name) > 0 {
 		ls.reg.Set(frame.LocalBase+no-1, lv)
 		return name
